@@ -55,6 +55,12 @@ def refresh_widening(core):
         if s is not post.req_o and s.reset.value > 0:
             free["refresh_postponer_count"] = s
             assume.append(s <= s.reset.value)
+    # the ZQCS timer (DDR3/DDR4 timings) is free-running in the same way: it counts down while no calibration is executing
+    zt = getattr(refresher, "zqcs_timer", None)
+    if zt is not None:
+        (zc,) = [s for s in local_regs(zt)]
+        free["zqcs_timer_count"] = zc
+        assume.append(zc <= zc.reset.value)
     return free, assume
 
 
